@@ -446,7 +446,7 @@ def _st_bg():
     return st.fixed_dictionaries({
         "seed": st.integers(0, 2 ** 32 - 1), "nsrc": st.integers(1, 4),
         "amp_uv": st.sampled_from([20.0, 30.0, 45.0, 60.0]), "noise_uv": st.sampled_from([2.0, 4.0, 6.0]),
-        "gvar": st.sampled_from([0.0, 0.1, 0.25]), "flo": st.sampled_from([300.0, 500.0]),
+        "gvar": st.sampled_from([0.0, 0.1, 0.2]), "flo": st.sampled_from([300.0, 500.0]),
         "fhi": st.sampled_from([3000.0, 5000.0, 7000.0]), "lf_uv": st.sampled_from([0.0, 0.0, 50.0]),
     })
 
@@ -512,7 +512,7 @@ def _file_case(draw):
         if draw(st.booleans()):
             f.pop("noisy", None)
         f["blk"] = draw(st.sampled_from([base["blk"], base["blk"], 0, draw(st.integers(0, 40))]))
-        faults.append(f)
+        faults.append(_sanitize(f, nc))  # the block edge moved: re-apply the placement rule of the replaced-by-noise variant
     gen = draw(st.sampled_from(["3B2", "NP2.1"]))
     return {"kind": "file", "gen": gen, "cbin": draw(st.sampled_from([False, False, True])), "nb": nb,
             "bd": draw(st.sampled_from([0.3, 0.2])), "gap": 0.06, "fs": draw(st.sampled_from([FS_AP, 29999.757983])),
@@ -605,7 +605,8 @@ def _compare(ctx, lab, allowed, special, what, base_kind="C15.detect"):
 
 def _run_detect(case, ctx):
     v = sut.voltage()
-    nc, ns, fs, fault, bg = case["nc"], case["ns"], case["fs"], case["fault"], case["bg"]
+    nc, ns, fs, bg = case["nc"], case["ns"], case["fs"], case["bg"]
+    fault = _sanitize(dict(case["fault"]), nc)
     X, rng = _background(bg, nc, ns, fs)
     _inject(X, slice(0, ns), fault, bg, fs, rng)
     X = np.ascontiguousarray(X.astype(_DT[case["dtype"]]))
@@ -659,8 +660,9 @@ def _run_file(case, ctx):
     win = [(int(round(t * fs)), int(round((t + bd) * fs))) for t in t0s]
     cuts = [0] + [(win[j][1] + win[j + 1][0]) // 2 for j in range(nb - 1)] + [ns]
     bg = case["bg"]
+    faults = [_sanitize(dict(f), nc) for f in case["faults"]]
     X, rng = _background(bg, nc, ns, fs)
-    for j, f in enumerate(case["faults"]):
+    for j, f in enumerate(faults):
         _inject(X, slice(cuts[j], cuts[j + 1]), f, bg, fs, rng)
     spec = _file_spec(case["gen"], ns, fs)
     s2v = calib.s2v(spec)[:nc]
@@ -672,12 +674,12 @@ def _run_file(case, ctx):
     Xq = (q.astype(np.float32) * s2v[order][:, None].astype(np.float32))  # what a calibrated read returns (C01)
     del X
     ctx.label("file", "file_" + case["gen"], "cbin" if case["cbin"] else "bin", f"nb{nb}", f"bd{bd}")
-    for f in case["faults"]:
+    for f in faults:
         _fault_labels(ctx, f, nc, prefix="batch_")
-    if any(f.get("dead") is not None or f.get("noisy") is not None or f.get("blk") for f in case["faults"]):
+    if any(f.get("dead") is not None or f.get("noisy") is not None or f.get("blk") for f in faults):
         ctx.nontrivial = True
     exp_cols = np.zeros((nc, nb), dtype=int)
-    for j, f in enumerate(case["faults"]):
+    for j, f in enumerate(faults):
         allowed, _ = _expected(nc, f)
         exp_cols[:, j] = [min(a) for a in allowed]  # single-valued by construction (file_safe faults)
     with rec.scratch_dir(ctx) as d:
@@ -691,7 +693,7 @@ def _run_file(case, ctx):
     got = np.asarray(got)
     if got.shape != (nc,):
         got = got.reshape(-1) if got.size == nc else got
-    _compare(ctx, got, _modal(exp_cols), {}, f"file labels vs injected per-batch faults {case['faults']}", base_kind="C15.file")
+    _compare(ctx, got, _modal(exp_cols), {}, f"file labels vs injected per-batch faults {faults}", base_kind="C15.file")
     # same relation against the labels detect_bad_channels gives on the harness' copy of every batch
     cols = np.zeros((nc, nb), dtype=int)
     for j, (a, b) in enumerate(win):
@@ -704,7 +706,7 @@ def _run_file(case, ctx):
             return
         cols[:, j] = labj.astype(int)
         ctx.check(np.array_equal(cols[:, j], exp_cols[:, j]), "C15.detect.labels",
-                  lambda: f"batch {j} of a file case: labels differ from the injected faults {case['faults'][j]} at channels "
+                  lambda: f"batch {j} of a file case: labels differ from the injected faults {faults[j]} at channels "
                           f"{np.flatnonzero(cols[:, j] != exp_cols[:, j])[:8].tolist()}")
     modal = _modal(cols)
     bad = [i for i in range(nc) if got.shape == (nc,) and got[i] not in modal[i]]
@@ -724,7 +726,7 @@ SWEEP_NS = {"quick": 6000, "thorough": 9000}
 def _sweep_bg(seed):
     k = seed % 4
     return {"seed": seed, "nsrc": 1 + k, "amp_uv": [30.0, 20.0, 45.0, 60.0][k], "noise_uv": [4.0, 6.0, 2.0, 4.0][k],
-            "gvar": [0.25, 0.1, 0.25, 0.0][k], "flo": 300.0, "fhi": [5000.0, 3000.0, 7000.0, 5000.0][k],
+            "gvar": [0.2, 0.1, 0.2, 0.0][k], "flo": 300.0, "fhi": [5000.0, 3000.0, 7000.0, 5000.0][k],
             "lf_uv": [0.0, 50.0, 0.0, 0.0][k]}
 
 
